@@ -25,8 +25,19 @@ R4 gather firing (`GatherStep.run`): element key = tag minus the last `self.dept
    task (initial and re-armed) pairs its name with the port it reads, each branch re-arms the port it
    consumed before the next task is examined; after the loop the non-completed keys are gathered,
    unless the status is FAILED, after the size entry was refreshed.
+R5 stable consumer identity of the port readers (every concrete `Step.run` with a `while` task loop, found through
+   the class table: GatherStep, CombinatorStep, LoopCombinatorStep, ScatterStep, LoopOutputStep today).  `Port.get(consumer)`
+   registers an unknown consumer as NEW and replays the port's whole token_list to it, so a reader that comes back
+   under another id handles tokens twice (a replayed size token gathers a complete list a second time: duplicate
+   ListToken, the outer gather of a nested scatter fires early).  (a) a reader task re-created inside the loop,
+   `create_task(<port>.get(C'), name=N')`, has the same consumer id *as a function of the task name* as the tasks that
+   armed the ports before the loop (`create_task(<port>.get(C), name=N)`): C with the value of N abstracted to <NAME>,
+   locals replaced by their assignments, `posixpath.join` / f-string / `+` spelled alike, equals C' with N' abstracted
+   (round-2 seeded change on GatherStep.run: `posixpath.join(self.name, port_name)` re-armed under `name=task_name`).  The coroutine may
+   sit in a local.  (b) a read awaited in the loop itself (`token = await port.get(C)`) is its own re-arm: C does not
+   depend on a local rebound inside the loop (other than the loop variable that also selects the port).
 
-All four rules of DESIGN.md section 3 (C01) are implemented.  Additions seen while reading the code:
+All four rules of DESIGN.md section 3 (C01) are implemented; R5 was added for a seeded change they missed.  Additions seen while reading the code:
 un-awaited `_persist_token` / `_gather` / `_scatter` coroutines (R2-R4), `enumerate` start and iterable (R3),
 paths that skip the size token / an element / the `_scatter` call (R3, seeded change C01-3), pairing of
 task names with ports for the initial tasks (R4), polarity of the completed-keys filter and refresh of
@@ -38,11 +49,17 @@ not `for i, t in enumerate(...)`) are analysis errors, not findings.
 
 Left undecided: equality of the values for every length/nesting (follows informally from R1-R4),
 persistence failures, what the element-wise steps in between do.
+Not decided by R5: reads made through a helper (`BaseStep._get_inputs` in the ExecuteStep / transformer loops builds the
+consumer id from the keys of the mapping it is given), readers that are not tasks named after their port, the
+executor's own output loop (not a Step), whether two different steps share a consumer id, loop-variance that hides
+behind a call (`self._next_consumer()`); for the sibling steps R5(a) compares consumer ids only -- that the re-armed
+task is named after the consumed task and reads the consumed port is R4's clause, decided for GatherStep.
 """
 
 from __future__ import annotations
 
 import ast
+import copy
 
 from ..cfg import NORMAL
 from ..model import dotted, unparse
@@ -57,6 +74,7 @@ from ._util_A import (
     in_subtree,
     is_const,
     kwarg,
+    merged_parts,
     method_call,
     name_def,
     nid_of,
@@ -76,6 +94,7 @@ from ._util_A import (
 
 CT = "streamflow.core.utils.compare_tags"
 STEP = "streamflow.workflow.step"
+STEP_BASE = "streamflow.core.workflow.Step"
 GATHER = f"{STEP}.GatherStep"
 SCATTER = f"{STEP}.ScatterStep"
 SFILE = "streamflow/workflow/step.py"
@@ -88,7 +107,8 @@ META = {
         "argument order kept), on every ScatterStep._scatter (tag = parent tag + enumerate index, size = len of the "
         "same iterable, distinct ports) and on GatherStep.run (sibling agreement of the two arrival branches: "
         "equality test on the count, gather, completed mark, re-arm of the consumed port; forced gather of the "
-        "remaining keys). Decides necessary structural conditions for 'scatter then gather returns the original "
+        "remaining keys) and on every Step.run task loop (the consumer id of a re-armed / looping port reader, as a function "
+        "of the task name, equals the one the port was first armed with). Decides necessary structural conditions for 'scatter then gather returns the original "
         "order' for every length and arrival order; it does not execute anything."
     ),
     "undecided": "equality of values for every length/nesting (follows informally from R1-R4, not proved); persistence failures",
@@ -770,6 +790,8 @@ def _task_creations(p, f):
         if not resolves_to(p, f, c, "asyncio.create_task", "asyncio.ensure_future") or not c.args:
             continue
         inner = strip_await(c.args[0])
+        if isinstance(inner, ast.Name):  # the coroutine kept in a local: `reader = port.get(...)`
+            inner = single_origin(f, inner, nid_of(f, c))
         g_ = method_call(inner, "get")
         if g_ is None:
             continue
@@ -1084,13 +1106,250 @@ def r4(ctx):
         ctx.ob("R4", "run: size_map[key] is set to the actual count before the forced gather", ok, func=f, node=c, instance="run:forced:size", message=msg)
 
 
-RULES = [("R1", r1), ("R2", r2), ("R3", r3), ("R4", r4)]
-FLOORS = {"R1": 5, "R2": 4, "R3": 7, "R4": 14}
+# =========================================================================== R5
+
+
+def _path_join(prog, f, e) -> ast.Call | None:
+    """`posixpath.join(a, b, ...)` / `os.path.join(...)` with plain positional arguments."""
+    if isinstance(e, ast.Call) and e.args and not e.keywords and not any(isinstance(a, ast.Starred) for a in e.args):
+        if (dotted(e.func) or "") in ("posixpath.join", "os.path.join", "path.join") or resolves_to(prog, f, e, "posixpath.join", "os.path.join"):
+            return e
+    return None
+
+
+def _okeys(f, e, nid) -> frozenset:
+    """What `e` may denote at CFG node `nid`, as a comparable set: literal values, leaf names (parameters,
+    loop / comprehension variables) and the text of any other origin (`task.get_name()`)."""
+    keys = set()
+    for o in origin_at(f, e, nid):
+        c = const_value(o)
+        if c is not NotImplemented:
+            keys.add(("const", repr(c)))
+        elif isinstance(o, ast.Name):
+            sb = scoped_binding(o)
+            keys.add(("scoped", o.id, id(sb[1])) if sb is not None else ("name", o.id))
+        else:
+            keys.add(("expr", unparse(o)))
+    return frozenset(keys)
+
+
+class ConsumerCanon:
+    """Canonical text of a consumer-id expression (the argument of `<port>.get(...)`) as a function of the
+    name of the task that reads the port: every sub-expression that denotes the same value as the task's
+    `name=` argument becomes `<NAME>`, locals are replaced by what they were assigned (at the assignment's
+    own program point), `posixpath.join(a, b)`, `f'{a}/{b}'` and `a + '/' + b` all become `a/b`.
+    `leaves` collects the local names that could not be looked through: (Name, [reaching definitions]);
+    `alts` the locals with several different reaching values: (Name, [definitions])."""
+
+    def __init__(self, prog, f, name, nid):
+        self.prog = prog
+        self.f = f
+        self.nkeys = _okeys(f, name, nid) if name is not None else None
+        self.leaves: list = []
+        self.alts: list = []
+
+    def _special(self, e, nid, depth):
+        f = self.f
+        if isinstance(e, ast.Await):
+            return self.text(e.value, nid, depth)
+        if isinstance(e, ast.NamedExpr):
+            return self.text(e.value, nid, depth)
+        if not isinstance(e, ast.expr) or isinstance(e, (ast.Starred, ast.Slice)):
+            return None
+        if isinstance(e, ast.Name) and not isinstance(e.ctx, ast.Load):
+            return None
+        if self.nkeys is not None and not isinstance(e, (ast.Lambda,)) and _okeys(f, e, nid) == self.nkeys:
+            return "<NAME>"
+        if isinstance(e, ast.Name):
+            if scoped_binding(e) is not None or nid is None:
+                return None
+            ds = rdefs(f, e.id, nid, use=e)
+            if not ds or all(d.kind in ("unbound", "import", "def") for d in ds):
+                return None  # a global / builtin / imported name
+            if depth > 0 and all(d.kind in ("assign", "walrus") and d.index is None for d in ds):
+                alts = sorted({self.text(d.value, d.nid, depth - 1) for d in ds})
+                if len(alts) == 1:
+                    return alts[0]
+                self.alts.append((e, ds))
+                return "{" + " | ".join(alts) + "}"
+            if any(d.kind not in ("param",) for d in ds):
+                self.leaves.append((e, ds))
+            return None
+        pj = _path_join(self.prog, f, e)
+        if pj is not None:
+            return "/".join(self.text(a, nid, depth) for a in pj.args)
+        if isinstance(e, ast.Constant):
+            return e.value if isinstance(e.value, str) else None
+        parts = merged_parts(e)
+        if not (len(parts) == 1 and parts[0] is e):
+            out = ""
+            for p_ in parts:
+                if isinstance(p_, str):
+                    out += p_
+                elif isinstance(p_, ast.FormattedValue):
+                    out += f"?({unparse(p_)})"
+                else:
+                    out += self.text(p_, nid, depth)
+            return out
+        return None
+
+    def _rebuild(self, e, nid, depth):
+        s = self._special(e, nid, depth)
+        if s is not None:
+            return ast.Name(id=s, ctx=ast.Load())
+        new = copy.copy(e)
+        for field, val in ast.iter_fields(e):
+            if isinstance(val, ast.AST):
+                setattr(new, field, self._rebuild(val, nid, depth))
+            elif isinstance(val, list):
+                setattr(new, field, [self._rebuild(x, nid, depth) if isinstance(x, ast.AST) else x for x in val])
+        return new
+
+    def text(self, e, nid, depth: int = 6) -> str:
+        s = self._special(e, nid, depth)
+        if s is not None:
+            return s
+        return f"<{unparse(self._rebuild(e, nid, depth))}>"
+
+
+def _is_task_ctor(prog, f, c) -> bool:
+    if not isinstance(c, ast.Call) or not c.args:
+        return False
+    fn = c.func
+    nm = fn.attr if isinstance(fn, ast.Attribute) else (fn.id if isinstance(fn, ast.Name) else None)
+    return nm in ("create_task", "ensure_future")
+
+
+def _port_get(prog, f, e) -> ast.Call | None:
+    """`<port>.get(C)` with exactly one argument whose receiver is not known to be something else than a Port."""
+    m = method_call(e, "get")
+    if m is None or len(m.args) != 1 or m.keywords or isinstance(m.args[0], ast.Starred) or isinstance(m.func.value, ast.Constant):
+        return None
+    rs = prog.resolve_call(f, m)
+    if rs and not any(q.startswith("?") or q.endswith("Port.get") for q in rs):
+        return None
+    return m
+
+
+def _port_reads(prog, f):
+    """[(get call, 'task'|'await', site)] for every one-argument `<port>.get(C)` of f that is wrapped in a task
+    (`site` = the create_task call) or awaited (`site` = the Await), directly or through a local that holds the
+    coroutine (a read of a port; `dict.get(k)` is neither wrapped nor awaited)."""
+    out = []
+    seen = set()
+    for c in f.calls():
+        if not _is_task_ctor(prog, f, c):
+            continue
+        a0 = strip_await(c.args[0])
+        o = a0 if isinstance(a0, ast.Call) else single_origin(f, a0, nid_of(f, c))
+        m = _port_get(prog, f, o)
+        if m is not None:
+            out.append((m, "task", c))
+            seen.add(id(m))
+    for a in f.body_nodes():
+        if not isinstance(a, ast.Await):
+            continue
+        v = a.value
+        o = v if isinstance(v, ast.Call) else (single_origin(f, v, nid_of(f, a)) if isinstance(v, ast.Name) else None)
+        m = _port_get(prog, f, o)
+        if m is not None and id(m) not in seen:
+            out.append((m, "await", a))
+    return out
+
+
+def _defs_inside(f, ds, loop):
+    """The statements of the definitions `ds` that lie inside `loop`."""
+    out = []
+    for d in ds:
+        if d.nid is None:
+            continue
+        a = d.stmt if d.stmt is not None else f.cfg.nodes[d.nid].ast
+        if a is not None and in_subtree(a, loop):
+            out.append(a)
+    return out
+
+
+def r5(ctx):
+    p = ctx.prog
+    p.cls(STEP_BASE)
+    runs = [f for f in p.concrete_impls(STEP_BASE, "run")]
+    ctx.require(bool(runs), "C01.R5: no Step.run implementation found")
+    checked = set()
+    for f in sorted(runs, key=lambda x: x.qualname):
+        who = ".".join(f.qualname.rsplit(".", 2)[-2:])
+        whiles = [n for n in f.body_nodes() if isinstance(n, ast.While)]
+        if not whiles:
+            continue
+        reads = _port_reads(p, f)
+        if not reads:
+            continue
+        initial = [r for r in reads if r[1] == "task" and not any(in_subtree(r[2], w) for w in whiles)]
+        seen_inst: dict = {}
+
+        def inst(base):
+            seen_inst[base] = seen_inst.get(base, 0) + 1
+            return base if seen_inst[base] == 1 else f"{base}#{seen_inst[base]}"
+
+        # (a) a reader task re-created inside the task loop uses the consumer id the port was first armed with
+        arm = []
+        for m, _k, tc in initial:
+            nm = kwarg(tc, "name")
+            if nm is None:
+                continue  # an unnamed reader task cannot be told apart by a loop over `task.get_name()`; not a reference
+            nid = nid_of(f, m)
+            arm.append((ConsumerCanon(p, f, nm, nid).text(m.args[0], nid), m))
+        for m, k, tc in reads:
+            loops = [w for w in whiles if in_subtree(tc, w)]
+            if not loops:
+                continue
+            wl = loops[0]
+            nid = nid_of(f, m)
+            if k == "task":
+                if not arm:
+                    ctx.observe(f"C01.R5: {f.qualname}: re-armed reader `{unparse(m)}` has no named initial reader task to compare with")
+                    continue
+                nm = kwarg(tc, "name")
+                if nm is None:
+                    ctx.observe(f"C01.R5: {f.qualname}: re-armed reader task `{unparse(m)}` has no name=; consumer id not compared")
+                    continue
+                got = ConsumerCanon(p, f, nm, nid).text(m.args[0], nid)
+                want = sorted({t for t, _m in arm})
+                checked.add(f.qualname)
+                ctx.ob("R5", f"{who}: the re-armed reader of a port uses the consumer id the port was first armed with", got in want, func=f, node=m,
+                       instance=inst(f"{who}:rearm-consumer"),
+                       message=f"re-arm `{unparse(m)}` (task name `{unparse(nm)}`) reads as consumer `{got}`, but the port was armed as consumer "
+                               f"`{' / '.join(want)}` (<NAME> = the task's name): a port whose name differs gets a NEW consumer and Port replays its "
+                               f"whole token_list to it (tokens handled twice: duplicate / early gathered lists)")
+            else:
+                # (b) a read awaited in the loop itself is its own re-arm: the consumer id does not change between iterations
+                cc = ConsumerCanon(p, f, None, nid)
+                got = cc.text(m.args[0], nid)
+                rc = ConsumerCanon(p, f, None, nid)
+                rc.text(m.func.value, nid)
+                recv_stmts = {id(a) for _e, ds in rc.leaves + rc.alts for a in _defs_inside(f, ds, wl)}
+                varying = []
+                for e, ds in cc.leaves + cc.alts:
+                    ins = _defs_inside(f, ds, wl)
+                    if ins and not all(id(a) in recv_stmts for a in ins):
+                        varying.append(e.id)
+                checked.add(f.qualname)
+                ctx.ob("R5", f"{who}: the port read in the loop keeps one consumer id for all iterations", not varying, func=f, node=m,
+                       instance=inst(f"{who}:loop-consumer"),
+                       message=f"consumer id `{unparse(m.args[0])}` of `{unparse(m)}` depends on {sorted(set(varying))}, rebound inside the loop: every "
+                               f"iteration registers a new consumer and Port replays the tokens already handled")
+    for q in (f"{GATHER}.run", f"{SCATTER}.run"):
+        ctx.require(q in checked, f"C01.R5: {q} has no port read inside a task loop that the rule understands (shape not supported)")
+
+
+RULES = [("R1", r1), ("R2", r2), ("R3", r3), ("R4", r4), ("R5", r5)]
+FLOORS = {"R1": 5, "R2": 4, "R3": 7, "R4": 14, "R5": 4}
 
 _G = f"{GATHER}._gather"
 _S = f"{SCATTER}._scatter"
 _R = f"{GATHER}.run"
 _SR = f"{SCATTER}.run"
+_CR = f"{STEP}.CombinatorStep.run"
+_LCR = f"{STEP}.LoopCombinatorStep.run"
 _ELEM_PUT = "await self._persist_token(token=t.retag(token.tag + '.' + str(i)), port=output_port, input_token_ids=get_entity_ids([token]))"
 _SIZE_PUT = "await self._persist_token(token=Token(len(token.value), tag=token.tag, recoverable=True), port=size_port, input_token_ids=get_entity_ids([token]))"
 
@@ -1164,7 +1423,36 @@ VARIANTS = [
     V("run: re-arm only when the list fired", SFILE, _R,
       "                unfinished.add(asyncio.create_task(port.get(posixpath.join(self.name, task_name)), name=task_name))",
       "                if token.tag in keys_completed:\n                    unfinished.add(asyncio.create_task(port.get(posixpath.join(self.name, task_name)), name=task_name))", "R4"),
+    # ---- R5
+    V("run: size/element reader re-armed under the element port's consumer id (round-2 seeded change)", SFILE, _R,
+      "port.get(posixpath.join(self.name, task_name)), name=task_name", "port.get(posixpath.join(self.name, port_name)), name=task_name", "R5", control=True),
+    V("run: re-armed reader uses the bare task name as consumer id", SFILE, _R,
+      "port.get(posixpath.join(self.name, task_name)), name=task_name", "port.get(task_name), name=task_name", "R5"),
+    V("run: re-armed reader's consumer id hidden behind a local built from the wrong name", SFILE, _R,
+      "                unfinished.add(asyncio.create_task(port.get(posixpath.join(self.name, task_name)), name=task_name))",
+      "                consumer = f'{self.name}/{port_name}'\n                unfinished.add(asyncio.create_task(port.get(consumer), name=task_name))", "R5"),
+    V("CombinatorStep.run: re-armed reader uses a per-token consumer id", SFILE, _CR,
+      "self.get_input_ports()[task_name].get(posixpath.join(self.name, task_name)), name=task_name",
+      "self.get_input_ports()[task_name].get(posixpath.join(self.name, task_name, token.tag)), name=task_name", "R5"),
+    V("LoopCombinatorStep.run: re-armed reader uses the last output port's name as consumer id", SFILE, _LCR,
+      "self.get_input_ports()[task_name].get(posixpath.join(self.name, task_name)), name=task_name",
+      "self.get_input_ports()[task_name].get(posixpath.join(self.name, port_name)), name=task_name", "R5"),
+    V("ScatterStep.run: a new consumer id at every iteration", SFILE, _SR,
+      "    while True:\n        token = await input_port.get(posixpath.join(self.name, next(iter(self.input_ports))))",
+      "    n_read = 0\n    while True:\n        n_read += 1\n        token = await input_port.get(posixpath.join(self.name, str(n_read)))", "R5"),
     # ---- benign
+    V("benign: run builds the re-arm consumer id in a local with an f-string, names the task from the task itself", SFILE, _R,
+      "                unfinished.add(asyncio.create_task(port.get(posixpath.join(self.name, task_name)), name=task_name))",
+      "                consumer = f'{self.name}/{task_name}'\n                reader = port.get(consumer)\n                unfinished.add(asyncio.create_task(reader, name=task.get_name()))", None),
+    V("benign: run arms the ports through a shared consumer prefix", SFILE, _R,
+      "    tasks = {asyncio.create_task(size_port.get(posixpath.join(self.name, '__size__')), name='__size__'), asyncio.create_task(input_port.get(posixpath.join(self.name, port_name)), name=port_name)}",
+      "    size_name = '__size__'\n    size_task = asyncio.create_task(size_port.get(posixpath.join(self.name, size_name)), name=size_name)\n    input_consumer = posixpath.join(self.name, port_name)\n    tasks = {size_task, asyncio.create_task(input_port.get(input_consumer), name=port_name)}", None),
+    V("benign: CombinatorStep.run arms the ports in a comprehension, re-arms through a local port", SFILE, _CR,
+      "                    input_tasks.append(asyncio.create_task(self.get_input_ports()[task_name].get(posixpath.join(self.name, task_name)), name=task_name))",
+      "                    consumed = self.get_input_ports()[task_name]\n                    input_tasks.append(asyncio.create_task(consumed.get(posixpath.join(self.name, task_name)), name=task_name))", None),
+    V("benign: ScatterStep.run computes the consumer id in a local inside the loop", SFILE, _SR,
+      "        token = await input_port.get(posixpath.join(self.name, next(iter(self.input_ports))))",
+      "        port_name = next(iter(self.input_ports))\n        consumer = posixpath.join(self.name, port_name)\n        token = await input_port.get(consumer)", None),
     V("benign: _scatter emits the size token first, then returns early on an empty list", SFILE, _S,
       "        output_port = self.get_output_port()\n        for i, t in enumerate(token.value):\n            output_port.put(" + _ELEM_PUT + ")\n        size_port = self.get_size_port()\n        size_port.put(" + _SIZE_PUT + ")",
       "        size_port = self.get_size_port()\n        size_port.put(" + _SIZE_PUT + ")\n        if len(token.value) == 0:\n            return\n        output_port = self.get_output_port()\n        for i, t in enumerate(token.value):\n            output_port.put(" + _ELEM_PUT + ")", None),
